@@ -1,6 +1,220 @@
+/-
+  C04 — parsing is total and pure, independent of history.
+
+  (1) `parse s` is a total function whose outcome is a tree, a `ParseSyntaxError` or an
+      `IllegalCharacterError` -- never a model-internal error (Luqum.Lemmas.ParseTotal: fuel
+      sufficiency by a measure, LR stack consistency of the generated tables).
+  (2) History independence.  `luqum.parser.parse` / `luqum.thread.parse` run on a long-lived, mutable
+      PLY lexer object that carries, besides `lexdata`/`lexpos`, the `HeadTailLexer` instance of the
+      previous call (attribute `_luqum_headtail`, never reset by `input()`).  Model:
+      `Luqum.Model.Stateful`.  Whatever that state is, a call behaves like the pure `parse`.
+-/
+import Luqum.Model.Stateful
 import Luqum.Model.ParserInst
+import Luqum.Lemmas.Stateful
+import Luqum.Lemmas.ParseTotal
+
 namespace Luqum.Props.C04
 open Luqum
-/-- placeholder until the property theorems land: the empty input is a syntax error at the end -/
+
+/-- the empty input is a syntax error at the end -/
 theorem parse_empty : parse [] = .error .syntaxEnd := by rfl
+
+/-! ### (1) totality: a tree, a `ParseSyntaxError` or an `IllegalCharacterError`, nothing else -/
+
+/-- the exception classes of the errors of luqum -/
+theorem render_class (e : ParseErr) (h : ∀ m, e ≠ .internal m) :
+    e.render.1 = "ParseSyntaxError" ∨ e.render.1 = "IllegalCharacterError" := by
+  cases e with
+  | illegalChar pos rest => exact Or.inr rfl
+  | syntaxAt text pos => exact Or.inl rfl
+  | syntaxEnd => exact Or.inl rfl
+  | badNumber text pos => exact Or.inl rfl
+  | internal m => exact absurd rfl (h m)
+
+/-- `parse` never reports a model-internal error ("out of fuel", "shift on end of input", "value
+stack underflow", "no goto", "accept on empty stack", "token value as result", "no action ... for
+these values"): for every input -/
+theorem parse_never_internal (s : Str) (m : String) : parse s ≠ .error (.internal m) :=
+  Luqum.parse_never_internal s m
+
+/-- **totality**: for every input, `parse` returns a tree or raises one of the two exception classes
+of luqum -/
+theorem parse_total (s : Str) :
+    (∃ t, parse s = .ok t) ∨
+    (∃ e, parse s = .error e ∧ (∀ m, e ≠ .internal m) ∧
+      (e.render.1 = "ParseSyntaxError" ∨ e.render.1 = "IllegalCharacterError")) := by
+  cases h : parse s with
+  | ok t => exact Or.inl ⟨t, rfl⟩
+  | error e =>
+    have hne : ∀ m, e ≠ .internal m := fun m he => parse_never_internal s m (by rw [h, he])
+    exact Or.inr ⟨e, rfl, hne, render_class e hne⟩
+
+/-- the same, spelled out: the possible outcomes of `parse` -/
+theorem parse_outcomes (s : Str) :
+    (∃ t, parse s = .ok t) ∨ (∃ pos rest, parse s = .error (.illegalChar pos rest)) ∨
+    (∃ text pos, parse s = .error (.syntaxAt text pos)) ∨ parse s = .error .syntaxEnd ∨
+    (∃ text pos, parse s = .error (.badNumber text pos)) := by
+  cases h : parse s with
+  | ok t => exact Or.inl ⟨t, rfl⟩
+  | error e =>
+    cases e with
+    | illegalChar pos rest => exact Or.inr (Or.inl ⟨_, _, rfl⟩)
+    | syntaxAt text pos => exact Or.inr (Or.inr (Or.inl ⟨_, _, rfl⟩))
+    | syntaxEnd => exact Or.inr (Or.inr (Or.inr (Or.inl rfl)))
+    | badNumber text pos => exact Or.inr (Or.inr (Or.inr (Or.inr ⟨_, _, rfl⟩)))
+    | internal m => exact absurd h (parse_never_internal s m)
+
+/-- `parse` is a function: equal inputs, equal outcomes (purity is definitional in the model; the
+content is part (2): the stateful Python objects compute this function) -/
+theorem parse_deterministic (s₁ s₂ : Str) (h : s₁ = s₂) : parse s₁ = parse s₂ := by rw [h]
+
+/-- non-vacuity: each class of outcome occurs -/
+example : (parse "a".toList).isOk = true := by decide +kernel
+example : (match parse "(a".toList with | .error .syntaxEnd => true | _ => false) = true := by
+  decide +kernel
+example : (match parse "a \\".toList with | .error (.illegalChar 2 _) => true | _ => false) = true := by
+  decide +kernel
+example : (match parse "a )".toList with | .error (.syntaxAt _ 2) => true | _ => false) = true := by
+  decide +kernel
+example : (match parse "a~1.2.3".toList with | .error (.badNumber _ _) => true | _ => false) = true := by
+  decide +kernel
+
+/-! ### (2) history independence -/
+
+/-- **history independence of the lexer.**  For EVERY previous lexer state `st` -- stale tracker with
+a pending head and a `last_elt` of an older call, `pos` mid-input, no tracker at all -- the tokens
+and the lexer error of a call on `s` are those of the pure `lex s`.  In particular the branches of
+the stateful model that misbehave on a stale tracker (tail appended to a token of an older call,
+left-over head applied, `AttributeError`) are unreachable.
+
+This covers the state left by an illegal character: `t_error` raises in the middle of the input, so
+the lexer keeps `lexpos` at the offending offset and its tracker as it was at that point; that is
+just one of the `st` quantified over here. -/
+theorem lex_history_independent (st : LexerState) (s : Str) : (lexFrom st s).1 = lex s :=
+  lexFrom_eq st s
+
+/-- the reason: the first lexeme of any input starts at offset 0, because `input()` resets `lexpos`;
+at offset 0 `HeadTailLexer.handle` does not read the stored tracker but replaces it -/
+theorem first_lexeme_at_zero (st : LexerState) (s : Str) :
+    (st.input s).pos = 0 ∧ ∀ tr, ({ st.input s with tracker := tr } : LexerState).fetch 0 = some Tracker.fresh :=
+  ⟨rfl, fun _ => rfl⟩
+
+/-- for the empty input no token is produced and the stored tracker is neither read nor replaced -/
+theorem lex_empty_keeps_tracker (st : LexerState) :
+    lexFrom st [] = (([], none), { data := [], pos := 1, tracker := st.tracker.map Tracker.age }) := rfl
+
+/-- the stored `lexdata` / `lexpos` of the previous call are irrelevant even for the final state -/
+theorem lexFrom_ignores_data_pos (st : LexerState) (d : Str) (p : Nat) (s : Str) :
+    lexFrom { st with data := d, pos := p } s = lexFrom st s := rfl
+
+/-- **history independence of `parse`.**  A call on a lexer found in any state yields `parse s`. -/
+theorem parseCall_eq_parse (st : LexerState) (s : Str) : (parseCall st s).1 = parse s := by
+  unfold parseCall parse parseWith
+  simp only [lexFrom_eq]
+  rfl
+
+/-- a whole history of calls on the same lexer object, starting from any state: every call yields
+the pure `parse` of its own input -/
+theorem parseSeq_eq_map (st : LexerState) (history : List Str) :
+    (parseSeq st history).1 = history.map parse := by
+  induction history generalizing st with
+  | nil => rfl
+  | cons s rest ih =>
+    simp only [parseSeq, List.map_cons, parseCall_eq_parse, ih]
+
+/-- the outcome of the last call of a history is `parse` of the last input -/
+theorem last_call_eq_parse (st : LexerState) (history : List Str) (s : Str) :
+    (parseSeq st (history ++ [s])).1.getLast? = some (parse s) := by
+  rw [parseSeq_eq_map]
+  simp
+
+/-- every call of a history, by index -/
+theorem nth_call_eq_parse (st : LexerState) (history : List Str) (i : Nat) :
+    (parseSeq st history).1[i]? = history[i]?.map parse := by
+  rw [parseSeq_eq_map]
+  simp
+
+/-- The model runs the lexer eagerly, Python lazily: after a syntax error the real lexer stops in the
+middle of the input, so the state handed to the next call need not be the `(parseCall st s).2` that
+`parseSeq` threads.  It does not matter: the calls may start from ANY states (chosen adversarially,
+even depending on everything before). -/
+theorem calls_from_any_states (calls : List (LexerState × Str)) :
+    calls.map (fun c => (parseCall c.1 c.2).1) = calls.map (fun c => parse c.2) := by
+  simp only [parseCall_eq_parse]
+
+/-- **the two entry points agree.**  `luqum.parser.parse(s)` is `parseCall` from the state of the
+module-level lexer, `luqum.thread.parse(s)` is `parseCall` from the state of the calling thread's
+clone (`parser.lexer.clone()`, a shallow copy that even inherits the module lexer's tracker). -/
+theorem entry_points_agree (stModule stThread : LexerState) (s : Str) :
+    (parseCall stModule s).1 = (parseCall stThread s).1 := by
+  rw [parseCall_eq_parse, parseCall_eq_parse]
+
+/-! ### non-vacuity -/
+
+/-- a stale lexer state, as left by an earlier call: pending head `"  "`, `last_elt` pointing to a
+token of an older call, `pos` in the middle of the old input -/
+def staleState : LexerState :=
+  { data := "(a b".toList, pos := 1,
+    tracker := some { head := some "  ".toList, last := some .stale } }
+
+/-- on `"a b"` the stateful lexer started from the stale state gives the tokens of `lex` -/
+example : (lexFrom staleState "a b".toList).1 = lex "a b".toList := by decide +kernel
+
+example : (lexFrom staleState "a b".toList).1 =
+    ([{ kind := .term, text := ['a'], pos := 0, head := [], tail := [' '] },
+      { kind := .term, text := ['b'], pos := 2, head := [], tail := [] }], none) := by decide +kernel
+
+/-- the state it leaves behind: `pos` one past the end, a tracker whose `last_elt` is the `b` token -/
+example : (lexFrom staleState "a b".toList).2 =
+    { data := "a b".toList, pos := 4, tracker := some { head := none, last := some .current } } := by
+  decide +kernel
+
+/-- an illegal character leaves `pos` mid-input and a tracker with a pending head behind -/
+example : lexFrom {} " \\".toList =
+    (([], some { pos := 1, rest := ['\\'] }),
+     { data := " \\".toList, pos := 1, tracker := some { head := some [' '], last := none } }) := by
+  decide +kernel
+
+/-- the stored tracker IS read when a lexeme does not start at offset 0, and a stale one does
+damage.  Resuming the loop WITHOUT `input()` at offset 1 of `"(a b"`: `a` receives the left-over
+head ... -/
+example : (lexLoopS 10 staleState []).1 =
+    ([{ kind := .term, text := ['a'], pos := 1, head := [' ', ' '], tail := [' '] },
+      { kind := .term, text := ['b'], pos := 3, head := [], tail := [] }], none) := by decide +kernel
+
+example : (lexLoopS 10 staleState []).1 ≠ lexLoop 10 1 ['('] "a b".toList [] none := by
+  decide +kernel
+
+def tokA : Tok := { kind := .term, text := ['a'], pos := 0 }
+
+/-- ... a separator met with a stale `last_elt` is lost for the current token list (`lexLoop`
+attaches it to `a`) ... -/
+example : (lexLoopS 10 { data := "a b".toList, pos := 1, tracker := some { last := some .stale } } [tokA]).1 =
+    ([tokA, { kind := .term, text := ['b'], pos := 2 }], none) := by decide +kernel
+
+example : lexLoop 10 1 ['a'] " b".toList [tokA] none =
+    ([{ tokA with tail := [' '] }, { kind := .term, text := ['b'], pos := 2 }], none) := by
+  decide +kernel
+
+/-- ... and a missing attribute is an `AttributeError` -/
+example : (lexLoopS 10 { data := "a b".toList, pos := 1, tracker := none } [tokA]).1 =
+    ([tokA], some { pos := 1, rest := " b".toList }) := by decide +kernel
+
+/-- parsing from the stale state, and a history containing failing calls -/
+example : (parseCall staleState "a b".toList).1 = parse "a b".toList := by rfl
+
+example : ((parseSeq staleState [" \\".toList, "(a".toList, "a b".toList]).1.map Except.isOk) =
+    [false, false, true] := by decide +kernel
+
+
+/-- totality for the stateful entry points: a call on a lexer in any state returns a tree or raises
+`ParseSyntaxError` / `IllegalCharacterError` -/
+theorem parseCall_total (st : LexerState) (s : Str) :
+    (∃ t, (parseCall st s).1 = .ok t) ∨
+    (∃ e, (parseCall st s).1 = .error e ∧ (∀ m, e ≠ .internal m) ∧
+      (e.render.1 = "ParseSyntaxError" ∨ e.render.1 = "IllegalCharacterError")) := by
+  rw [parseCall_eq_parse]
+  exact parse_total s
+
 end Luqum.Props.C04
